@@ -1338,8 +1338,8 @@ def rule_r12(prog, res) -> None:
                 )
             else:
                 res.ok("C06.R12", res.site(fi, "barrier after rank-guarded write"), "every path from the guarded write to the exit passes a world barrier / broadcast")
-    if n < 3:
-        raise AnalysisError(f"C06.R12: only {n} functions with rank-guarded writes found, minimum 3")
+    if n < 2:
+        raise AnalysisError(f"C06.R12: only {n} functions with rank-guarded writes found, minimum 2")
 
 
 RULES = [
